@@ -414,8 +414,10 @@ class Ctx:
     def violation(self, key, what, replay_obj, no_input=False):
         """Record a violation. `key` identifies it for known_findings matching."""
         for k in known_findings():
-            if k.get("property") == self.pid and k.get("status", "open") == "open" and k.get("key") == key:
-                self.known_hits.append((key, k.get("what", what)))
+            if k.get("property") == self.pid and k.get("status", "open") == "open" and (
+                    k.get("key") == key or (k.get("key_prefix") and str(key).startswith(k["key_prefix"]))):
+                if not any(w == k.get("what", what) for _, w in self.known_hits):
+                    self.known_hits.append((key, k.get("what", what)))
                 return
         if any(v[0] == key for v in self.violations):
             return  # one report per key; the first (usually smallest) instance is the replay
